@@ -124,6 +124,12 @@ def oracle (c : MCase) (algo : Algo) (sres : String) (ir : ImplRes) (priorKept :
       let mx := maxAlignScore c.cfg c.ext c.hrep c.h c.n
       if sc > mx then bad := bad ++ [("C04", s!"score {sc} exceeds the maximum {mx} over all alignments")]
       if c.n.length = 1 && sc ≠ mx then bad := bad ++ [("C04", s!"one-character needle: score {sc}, best-placed occurrence gives {mx}")]
+  -- C04: never below the two-matrix recurrence evaluated naively on the full matrix (every column of the haystack, no
+  -- prefilter window), for inputs small enough for the matrix path
+  if algo == .fuzzy && c.nn && !c.cfg.preferPrefix && c.n.length ≥ 2 && c.h.length * c.n.length ≤ 40000 && slabFits (charSize c.hrep) c.h.length c.n.length then
+    if let some sc := ir.score then
+      if let some (full, _) := optimalDP c.cfg c.ext c.hrep c.h c.n 0 c.h.length then
+        if sc < full then bad := bad ++ [("C04", s!"score {sc} is below the value {full} of the two-matrix recurrence evaluated on the full matrix")]
   return bad
 
 def mLine (ws : List String) : String := Id.run do
